@@ -7,7 +7,7 @@ EXTENDS Integers, Sequences, TLC, Json, IOUtils, CSV, FiniteSets, SequencesExt
 Out   == IOEnv.VERIF_OUT
 Depth == IF "VERIF_DEPTH" \in DOMAIN IOEnv THEN atoi(IOEnv.VERIF_DEPTH) ELSE 14
 R(X) == RandomElement(X)
-Kinds == {"commit", "msm", "prove", "verify", "ipa", "group", "batch", "codec", "transcript", "poly", "probe", "probe", "tables"}
+Kinds == {"commit", "msm", "prove", "verify", "ipa", "group", "batch", "codec", "transcript", "poly", "precomp", "crs", "misc", "probe", "probe", "tables"}
 VARIABLES prog, done
 Init == prog = << >> /\ done = FALSE
 Next == \/ /\ ~done /\ Len(prog) < Depth
